@@ -30,6 +30,11 @@ open KG KG.Model.K8sStore KG.Spec.K8sStore KG.Lemmas.K8sStore
     `Save` hold the store mutex. (Fails to check when one of these locks is removed.) -/
 theorem genLocks_good : GoodLocks genLocks := ⟨rfl, rfl, rfl, rfl⟩
 
+/-- The served API stores the status submitted to the main resource (the control plane registers
+    `ratelimitconditions` with `subStatus = false`), as `Api.write` assumes. (Fails to check when the registry wiring
+    gives the resource a status-subresource strategy: every acknowledged Save would then lose its status.) -/
+theorem api_persists_status : servedKeepsStatus = true := rfl
+
 /-- with these locks, what can land inside a running flush is a periodic `Save` (cache only) -/
 theorem c19_only_periodic_saves_inside (wt : Bool) (intr : Op) (h : allowedIntr genLocks wt intr = true) :
     ∃ k c, intr = .save k c ∧ wt = false :=
